@@ -289,9 +289,11 @@ impl RedeemNode {
         loop {
             let again = pruned.prune_with_tracker(env, &mut SetTracker::default())?;
             // Hiding a branch without witness data does not change the IHR,
-            // so compare the serialisations.
+            // so compare the serialisations. Return the result of the last pass: its types
+            // were inferred over exactly the nodes that remain, while `pruned` may still carry
+            // wider types at nodes that no witness flows through (same serialisation).
             if again.to_vec_with_witness() == pruned.to_vec_with_witness() {
-                return Ok(pruned);
+                return Ok(again);
             }
             pruned = again;
         }
